@@ -1,0 +1,125 @@
+//! Verification seam, compiled only with `--cfg apollo_rs_verif`.
+//!
+//! [`AtomicU64`] has the method surface of `std::sync::atomic::AtomicU64` that this crate uses.
+//! Until a backend is installed it forwards to a plain std atomic, so behaviour is unchanged.
+//! A model checker installs an [`AtomicU64Backend`] so that every operation on the wrapped
+//! atomic becomes a scheduling point it controls.
+
+use std::sync::atomic::AtomicU64 as StdAtomicU64;
+use std::sync::atomic::Ordering;
+use std::sync::OnceLock;
+
+/// Operations a backend must provide. `init` is the value the wrapped static was created with.
+pub trait AtomicU64Backend: Sync + Send {
+    fn load(&self, init: u64, order: Ordering) -> u64;
+    fn store(&self, init: u64, val: u64, order: Ordering);
+    fn swap(&self, init: u64, val: u64, order: Ordering) -> u64;
+    fn fetch_add(&self, init: u64, val: u64, order: Ordering) -> u64;
+    fn fetch_sub(&self, init: u64, val: u64, order: Ordering) -> u64;
+    fn compare_exchange(
+        &self,
+        init: u64,
+        current: u64,
+        new: u64,
+        success: Ordering,
+        failure: Ordering,
+    ) -> Result<u64, u64>;
+}
+
+static BACKEND: OnceLock<&'static dyn AtomicU64Backend> = OnceLock::new();
+
+/// Install the backend for the rest of the process. Returns `false` if one was already installed.
+pub fn install_atomic_u64_backend(backend: &'static dyn AtomicU64Backend) -> bool {
+    BACKEND.set(backend).is_ok()
+}
+
+pub struct AtomicU64 {
+    init: u64,
+    plain: StdAtomicU64,
+}
+
+impl AtomicU64 {
+    pub const fn new(val: u64) -> Self {
+        Self {
+            init: val,
+            plain: StdAtomicU64::new(val),
+        }
+    }
+
+    pub fn load(&self, order: Ordering) -> u64 {
+        match BACKEND.get() {
+            Some(b) => b.load(self.init, order),
+            None => self.plain.load(order),
+        }
+    }
+
+    pub fn store(&self, val: u64, order: Ordering) {
+        match BACKEND.get() {
+            Some(b) => b.store(self.init, val, order),
+            None => self.plain.store(val, order),
+        }
+    }
+
+    pub fn swap(&self, val: u64, order: Ordering) -> u64 {
+        match BACKEND.get() {
+            Some(b) => b.swap(self.init, val, order),
+            None => self.plain.swap(val, order),
+        }
+    }
+
+    pub fn fetch_add(&self, val: u64, order: Ordering) -> u64 {
+        match BACKEND.get() {
+            Some(b) => b.fetch_add(self.init, val, order),
+            None => self.plain.fetch_add(val, order),
+        }
+    }
+
+    pub fn fetch_sub(&self, val: u64, order: Ordering) -> u64 {
+        match BACKEND.get() {
+            Some(b) => b.fetch_sub(self.init, val, order),
+            None => self.plain.fetch_sub(val, order),
+        }
+    }
+
+    pub fn compare_exchange(
+        &self,
+        current: u64,
+        new: u64,
+        success: Ordering,
+        failure: Ordering,
+    ) -> Result<u64, u64> {
+        match BACKEND.get() {
+            Some(b) => b.compare_exchange(self.init, current, new, success, failure),
+            None => self.plain.compare_exchange(current, new, success, failure),
+        }
+    }
+
+    pub fn compare_exchange_weak(
+        &self,
+        current: u64,
+        new: u64,
+        success: Ordering,
+        failure: Ordering,
+    ) -> Result<u64, u64> {
+        self.compare_exchange(current, new, success, failure)
+    }
+
+    pub fn fetch_update<F>(
+        &self,
+        set_order: Ordering,
+        fetch_order: Ordering,
+        mut f: F,
+    ) -> Result<u64, u64>
+    where
+        F: FnMut(u64) -> Option<u64>,
+    {
+        let mut prev = self.load(fetch_order);
+        while let Some(next) = f(prev) {
+            match self.compare_exchange_weak(prev, next, set_order, fetch_order) {
+                x @ Ok(_) => return x,
+                Err(next_prev) => prev = next_prev,
+            }
+        }
+        Err(prev)
+    }
+}
